@@ -180,7 +180,7 @@ def obligations(tier, seed):
                     name="wrap_%s_ir%d_w%d" % (kind, i, a), params=[("W", "int")], pre=["%d <= W < %d" % (a, b)],
                     body="H.wrap(%r, %d, W, {ACTIVE})" % (kind, i), witness=(max(a + (b - a) // 2, 20) if b > 20 else a,),
                     bounds="every width %d <= W < %d (symbolic int); emitter %s on pool IR %d (concrete text); word_wrap on vs off" % (a, b, kind, i),
-                    timeout=240 if tier == "quick" else 1200, path_timeout=120, funcs=FUNCS,
+                    timeout=420 if tier == "quick" else 1200, path_timeout=120, funcs=FUNCS,
                     kf=[("KF-C18-long-word-break", "W < 20")] if a < 20 < b else [],
                     skip_kf=(["KF-C18-numpydoc-wrap"] if kind == "numpydoc" else []) + (["KF-C18-long-word-break"] if b <= 20 else [])))
     for kind in ("rest", "function") if tier == "quick" else ("rest", "google", "function", "class", "argparse"):
@@ -190,7 +190,7 @@ def obligations(tier, seed):
                 body="H.wrap(%r, 4, W, {ACTIVE})" % kind, witness=(a + (b - a) // 2,),
                 bounds="every width %d <= W < %d (symbolic int); emitter %s on a description whose str default has several words (a wrap "
                 "position can fall inside the default value); word_wrap on vs off, defaults compared exactly" % (a, b, kind),
-                timeout=240 if tier == "quick" else 1200, path_timeout=120, funcs=FUNCS))
+                timeout=420 if tier == "quick" else 1200, path_timeout=120, funcs=FUNCS))
     # the parser's own flag differs from the emitter's: default text written, then stripped from the prose on the way back
     for kind in ("rest", "google") if tier == "quick" else ("rest", "google", "function", "class"):
         for i in (1,) if tier == "quick" else range(len(POOL)):
@@ -203,7 +203,7 @@ def obligations(tier, seed):
                     body="H.wrap(%r, %d, W, {ACTIVE}, {'parse_default_doc': False})" % (kind, i), witness=(a + (b - a) // 2,),
                     bounds="every width %d <= W < %d (symbolic int); emitter %s on pool IR %d with default text, parsed back with the default "
                     "sentence stripped from the prose (emit_default_doc=False on the parser); word_wrap on vs off" % (a, b, kind, i),
-                    timeout=240 if tier == "quick" else 1200, path_timeout=120, funcs=FUNCS))
+                    timeout=420 if tier == "quick" else 1200, path_timeout=120, funcs=FUNCS))
     obs.append(Ob(name="env_read", params=[("s", "str")], pre=["1 <= len(s) <= 3", "all(c in '0123456789' for c in s)", "s[0] != '0'", "int(s) >= 1"],
                   body="H.env_read(s)", witness=("60",), kind="F",
                   bounds="DOCTRANS_LINE_LENGTH = any decimal string of 1..3 digits without leading zero (positive); pure_utils' own two statements "
